@@ -11,7 +11,11 @@ for f in sorted(glob.glob('/verif/seeded/*/meta.json')):
     names = []
     for b in (last['by'] if last and last['caught'] else []):
         if b.startswith('obligation '):
-            b = 'contract of ' + re.split(r'/(?:pre|post|safety|inv-|frame|variant|cover|canary|overflow|unbound|outside|lemma)', b[len('obligation '):])[0].split('/')[-1]
+            n = re.split(r'/(?:pre|post|safety|inv-|frame|variant|cover|canary|overflow|unbound|outside|lemma)', b[len('obligation '):])[0]
+            n = re.sub(r'^(\(\*?)[^()]*/', r'\1', n)      # (*a/b/pkg.T).m -> (*pkg.T).m
+            if not n.startswith('('):
+                n = n.split('/')[-1]
+            b = 'contract of ' + n
         if b not in names:
             names.append(b)
     by = ', '.join(names)
